@@ -5,7 +5,10 @@
 
      temp_out = infile + ".~qpdf-temp#";  Writer w(pdf); w.setOutputFilename(temp_out); w.write();   [block scope]
      pdf.closeInputSource();
-     backup = infile + ".~qpdf-orig";  bool warnings = pdf.anyWarnings();  if (!warnings) backup += '#';
+     backup = infile + ".~qpdf-orig";
+     bool warnings = pdf.anyWarnings() || m->warnings || (an --overlay/--underlay file has warnings);   [/repo PENDING11;
+         before that commit: pdf.anyWarnings() alone - finding C11-F1-warnings-about-other-files]
+     if (!warnings) backup += '#';
      QUtil::rename_file(infile, backup);  QUtil::rename_file(temp_out, infile);
      if (warnings) "there are warnings; original file kept in" else try { remove_file(backup) } catch -> "unable to delete"
 
@@ -16,10 +19,10 @@
      directories.  safe_fopen(temp, "wb+") truncates a file and fails on a directory (EISDIR); rename(2) replaces a
      file atomically and fails when the target is a directory (EISDIR), leaving both names as they were; remove()
      is only reached after both renames succeeded, i.e. on a file.
-   - which backup name is used is decided by the code (pdf.anyWarnings() of the MAIN input, evaluated after the
-     temporary file was written: warnings raised while opening, transforming or writing the main input), while the
-     exit status comes from QPDFJob's m->warnings, which also collects the warnings about the other input files
-     (--pages, --overlay/--underlay, --copy-attachments-from): two flags, c11d_wmain and c11d_wother.
+   - which backup name is used is decided by the code: from the warnings about the main input (pdf.anyWarnings(),
+     evaluated after the temporary file was written: warnings raised while opening, transforming or writing it,
+     c11d_wmain) and the warnings about the other input files of the job (--pages, --overlay/--underlay,
+     --copy-attachments-from, --copy-encryption: c11d_wother) - the same two flags the exit status comes from.
    No proofs here.  Names are prefixed c11d_ (extraction flattens the name space). *)
 From QV Require Import Base.Bytes Sys.StdioModel Sys.SinkModel.
 From Coq Require Import Arith.
@@ -31,14 +34,16 @@ Record c11d_job := mk_c11d_job {
   c11d_scratch : nat;      (* <in>.~qpdf-orig# *)
   c11d_temp : nat;         (* <in>.~qpdf-temp# *)
   c11d_wmain : bool;       (* pdf.anyWarnings() when writeOutfile reaches the renames *)
-  c11d_wother : bool;      (* warnings about other input files of the job that reached m->warnings *)
+  c11d_wother : bool;      (* warnings about other input files of the job (m->warnings, overlay / underlay files) *)
   c11d_quiet : bool;       (* --no-warn: writeQPDF does not print "operation succeeded with warnings" (the status stays 3) *)
   c11d_chunks : list (list N) }.
 
+(* bool warnings = pdf.anyWarnings() || m->warnings || (overlay / underlay files) *)
+Definition c11d_warned (j : c11d_job) : bool := c11d_wmain j || c11d_wother j.
 (* std::string backup = infile + ".~qpdf-orig"; if (!warnings) backup.append(1, '#') *)
-Definition c11d_backup (j : c11d_job) : nat := if c11d_wmain j then c11d_kept j else c11d_scratch j.
+Definition c11d_backup (j : c11d_job) : nat := if c11d_warned j then c11d_kept j else c11d_scratch j.
 (* the backup name this run does not use *)
-Definition c11d_other_backup (j : c11d_job) : nat := if c11d_wmain j then c11d_scratch j else c11d_kept j.
+Definition c11d_other_backup (j : c11d_job) : nat := if c11d_warned j then c11d_scratch j else c11d_kept j.
 
 Definition c11d_is_dir (dirs : list nat) (n : nat) : bool := existsb (Nat.eqb n) dirs.
 
@@ -68,7 +73,7 @@ Definition c11d_replace (en : c10_env) (dirs : list nat) (j : c11d_job) (w : c10
     if negb ok1 then RExc (Exn EcRename inp) w2 else
   c10_bind (c11d_rename en dirs temp inp w2) (fun ok2 w3 =>
     if negb ok2 then RExc (Exn EcRename temp) w3 else
-    if c11d_wmain j then ROk tt (c10_say w3 DgKept) else
+    if c11d_warned j then ROk tt (c10_say w3 DgKept) else
     c10_bind (c10_unlink en backup w3) (fun ok3 w4 =>
       ROk tt (if ok3 then w4 else c10_say w4 DgUnlink))))).
 
